@@ -4,6 +4,7 @@
   expresses by running the block function on `max(supply, exclude)`).
 -/
 import Sge.Gen.Kernels
+import SgeProofs.Lemmas.KernelsTie
 import Sge.Mint
 namespace Sge.KernelsTie
 open Sge Sge.Mint Sge.Gen.Kernels
@@ -14,7 +15,7 @@ theorem krn_tie_NextPhaseProvisions (infl : Dec) (supply exclude : Int) (ph : Ph
     mint_Minter_NextPhaseProvisions infl supply exclude ph.yearCoef =
       nextPhaseProvisions infl (if supply < exclude then exclude else supply) exclude ph := by
   unfold mint_Minter_NextPhaseProvisions nextPhaseProvisions
-  (repeat' split) <;> first | rfl | (exfalso; omega) | (congr 2; omega)
+  krn_close
 
 /-- without the clamp being active the two agree literally -/
 theorem krn_tie_NextPhaseProvisions_unclamped (infl : Dec) (supply exclude : Int) (ph : Phase) (h : exclude ≤ supply) :
